@@ -53,6 +53,21 @@ type Run struct {
 	MinDistinct  int // minimum distinct non-trivial cases required for a "held" verdict
 }
 
+// Part reports whether a named part of a check is enabled: always, unless VERIF_PARTS (a
+// development aid, comma separated) is set and does not name it.
+func Part(name string) bool {
+	v := os.Getenv("VERIF_PARTS")
+	if v == "" {
+		return true
+	}
+	for _, x := range strings.Split(v, ",") {
+		if x == name {
+			return true
+		}
+	}
+	return false
+}
+
 func Seed() int64 {
 	if s := os.Getenv("VERIF_SEED"); s != "" {
 		if v, err := strconv.ParseInt(s, 10, 64); err == nil {
